@@ -35,6 +35,9 @@ impl MovePicker {
     pub fn new_loud() -> Self {
         MovePicker
     }
+    pub fn new(_prev: Option<Move>) -> Self {
+        MovePicker
+    }
     pub fn next(&mut self, _g: &Game, _ctx: &SearchContext<'_>, plies: u8) -> Option<Move> {
         env::live();
         assert!((plies as usize) < 255, "KillersTable has 255 rows: index out of range (read in MovePicker::next)");
@@ -69,7 +72,7 @@ fn in_band(e: Eval) -> bool {
 }
 
 //@ obligation: C04.quiescence.ind_prefix
-//@ property: C04 C09
+//@ property: C04 C09 C08
 //@ domain: complete
 //@ functions: engine/search/quiescence.rs::quiescence
 //@ timeout: 900
@@ -104,7 +107,7 @@ fn vk_c04_quiescence_ind_prefix() {
 }
 
 //@ obligation: C04.quiescence.ind_step
-//@ property: C04 C09
+//@ property: C04 C09 C08
 //@ domain: complete
 //@ functions: engine/search/quiescence.rs::quiescence
 //@ timeout: 900
@@ -137,7 +140,7 @@ fn vk_c04_quiescence_ind_step() {
 }
 
 //@ obligation: C04.quiescence.ind_suffix
-//@ property: C04 C09
+//@ property: C04 C09 C08
 //@ domain: complete
 //@ functions: engine/search/quiescence.rs::quiescence
 //@ timeout: 300
@@ -153,7 +156,7 @@ fn vk_c04_quiescence_ind_suffix() {
 }
 
 //@ obligation: C04.canary.quiescence_ind
-//@ property: C04 C09
+//@ property: C04 C09 C08
 //@ canary: true
 //@ timeout: 900
 //@ mem_gb: 4
